@@ -466,7 +466,7 @@ pub fn main(a: &Args) {
             5 => ("lex", gen_lex(&mut rng).text()),
             6 => {
                 let g = gen_bnf(&mut rng, &BnfOpts::default());
-                ("layout", grammar_text(&g, rng.range(1, 6) as u8))
+                ("layout", grammar_text(&g, rng.range(1, 7) as u8))
             }
             7 => ("expr", gen_expr(&mut rng).text),
             _ => ("ast", crate::astgen::gen_ast(&mut rng).text()),
